@@ -514,11 +514,12 @@ pub fn plan_c11(thorough: bool) -> Plan {
     cases.extend(attempt_in_between_family());
     cases.extend(disjoint_pages_chain_family("all"));
     cases.extend(emptied_and_refilled_cluster_family("all"));
+    cases.extend(macro_overlay_chains("all", 3));
     cases.extend(writeless_overlay_family());
     sort_by_bound(&mut cases);
     let mut p = Plan::new(
         cases,
-        "histx: every event sequence of length ≤L over {create an overlay on no parent or on any live overlay (with its live ancestor chain), begin a session on a list that is NOT a complete ancestor chain (child without its live parent, reversed chain, unrelated overlays), commit overlay i (blocking / non-blocking), drop overlay i, direct commit, rollback(1|2)} with ≤3 (thorough 4) overlays, from a leaf seed and a 19-key merkle cluster (so overlays create fresh merkle pages); oracle: a session on a complete chain reads, proves and computes the root exactly as the model with the chain applied; SessionParams::overlay is accepted iff the list is a complete ancestor chain; an overlay commit is accepted iff its parent was the last commit (or it has none) and its base is current, and then leaves exactly the state and rollback history of the equivalent direct commits; rejected/dropped/forked overlays leave no trace (audit incl. proofs after every step, final reopen). Start states: leaf seed, 19-key cluster, committed overflow values (ovf2), and an on-disk pair next to 'round' keys inserted by an overlay. Plus the attempt-in-between family: a committed parent overlay, ONE attempt that must leave no trace (an overlay whose parent is not committed / a stale unrelated overlay / a stale prepared session, through the blocking and the non-blocking entry point; the child itself deferred once), then the legitimate child, which must still be accepted; rolled back afterwards. Plus chains whose overlays touch disjoint merkle pages (one inside a stored 20-key cluster page, one under other root children; both orders; two and three levels): after the older overlays are committed one by one, sessions on the remaining younger ones alone must read and prove every key (the pages a committed ancestor wrote are found in the store again), incl. a changeset prepared on the last overlay and committed directly. Plus the write-less overlay family of C09 (empty / read-only overlays committed between writing commits and rollbacks: same rollback history as the direct commits).",
+        "histx: every event sequence of length ≤L over {create an overlay on no parent or on any live overlay (with its live ancestor chain), begin a session on a list that is NOT a complete ancestor chain (child without its live parent, reversed chain, unrelated overlays), commit overlay i (blocking / non-blocking), drop overlay i, direct commit, rollback(1|2)} with ≤3 (thorough 4) overlays, from a leaf seed and a 19-key merkle cluster (so overlays create fresh merkle pages); oracle: a session on a complete chain reads, proves and computes the root exactly as the model with the chain applied; SessionParams::overlay is accepted iff the list is a complete ancestor chain; an overlay commit is accepted iff its parent was the last commit (or it has none) and its base is current, and then leaves exactly the state and rollback history of the equivalent direct commits; rejected/dropped/forked overlays leave no trace (audit incl. proofs after every step, final reopen). Start states: leaf seed, 19-key cluster, committed overflow values (ovf2), and an on-disk pair next to 'round' keys inserted by an overlay. Plus the attempt-in-between family: a committed parent overlay, ONE attempt that must leave no trace (an overlay whose parent is not committed / a stale unrelated overlay / a stale prepared session, through the blocking and the non-blocking entry point; the child itself deferred once), then the legitimate child, which must still be accepted; rolled back afterwards. Plus chains whose overlays touch disjoint merkle pages (one inside a stored 20-key cluster page, one under other root children; both orders; two and three levels): after the older overlays are committed one by one, sessions on the remaining younger ones alone must read and prove every key (the pages a committed ancestor wrote are found in the store again), incl. a changeset prepared on the last overlay and committed directly. Plus every chain of three overlays over two stored cluster pages and two keys elsewhere, each overlay applying one of nine macro batches {cluster A: rewrite one / insert a 21st / delete one / delete all 20 / write three; cluster B: rewrite one / delete all; elsewhere: write; nothing} (728 chains): the session view is audited at every overlay creation, the chain is committed in order with a new session on the remaining overlays after each commit, the last commit is rolled back. Plus the write-less overlay family of C09 (empty / read-only overlays committed between writing commits and rollbacks: same rollback history as the direct commits).",
     );
     p.budget_s = if thorough { 1700 } else { 55 };
     p
@@ -802,6 +803,59 @@ pub fn emptied_and_refilled_cluster_family(audit: &str) -> Vec<Value> {
     cases
 }
 
+
+/// Systematic overlay chains over two stored cluster pages (A, B: 20 keys each under different
+/// root children) and two keys elsewhere: every chain of `depth` overlays, each applying one of
+/// nine macro batches {A: rewrite one / insert a 21st / delete one (19 left) / delete all 20 /
+/// write three (refill or rewrite); B: rewrite one / delete all; elsewhere: write; nothing}; every
+/// overlay creation audits the session's view on the chain (reads, proofs, root); then the chain is
+/// committed in order with a new session on the remaining overlays after each commit, and the last
+/// commit rolled back.
+pub fn macro_overlay_chains(audit: &str, depth: usize) -> Vec<Value> {
+    let mut cfg = rb_cfg(3, 0);
+    cfg.buckets = 256;
+    let macros: Vec<Vec<Value>> = vec![
+        vec![w(0, 5)],
+        vec![w(20, 1)],
+        vec![del(1)],
+        vec![json!([0, "dn", 20])],
+        vec![w(2, 3), w(3, 3), w(21, 3)],
+        vec![w(24, 5)],
+        vec![json!([24, "dn", 20])],
+        vec![w(48, 2)],
+        vec![],
+    ];
+    let mut cases = vec![];
+    let n = macros.len();
+    let total = n.pow(depth as u32);
+    for code in 0..total {
+        let mut c0 = code;
+        let picks: Vec<usize> = (0..depth).map(|_| { let x = c0 % n; c0 /= n; x }).collect();
+        // (chains that do nothing at all are not interesting)
+        if picks.iter().all(|p| *p == n - 1) {
+            continue;
+        }
+        let mut ops: Vec<Value> = vec![];
+        for (i, p) in picks.iter().enumerate() {
+            let on: Vec<usize> = (0..i).rev().collect();
+            ops.push(json!({"ov": {"id": i, "on": on, "b": macros[*p]}}));
+        }
+        // commit in order; after each commit a fresh session on what is left of the chain
+        let mut next_id = depth;
+        for i in 0..depth {
+            ops.push(json!({"ovc": i}));
+            let rest: Vec<usize> = (i + 1..depth).rev().collect();
+            if !rest.is_empty() {
+                ops.push(json!({"ov": {"id": next_id, "on": rest, "b": [w(49, 1 + i as u64)]}}));
+                next_id += 1;
+            }
+        }
+        ops.push(json!({"rb": 1}));
+        cases.push(case("ab20", vec!["AB"], &cfg, audit, ops, depth, true));
+    }
+    cases
+}
+
 pub fn plan_c12(thorough: bool) -> Plan {
     let mut cases = vec![];
     for (seed, uni, batches) in [
@@ -958,12 +1012,13 @@ pub fn plan_c05(thorough: bool) -> Plan {
     cases.extend(tombstone_family("proofs", thorough));
     cases.extend(disjoint_pages_chain_family("proofs"));
     cases.extend(emptied_and_refilled_cluster_family("proofs"));
+    cases.extend(macro_overlay_chains("proofs", if thorough { 3 } else { 2 }));
     add_quiet(&mut cases, if thorough { 1 } else { 2 });
     add_io_reverse(&mut cases, if thorough { 2 } else { 3 });
     sort_by_bound(&mut cases);
     let mut p = Plan::new(
         cases,
-        "histx: all histories of ≤D commits with ≤B key actions {insert, delete} over a 4-key family and over 19/20/21-key merkle clusters (paths crossing elided pages), hash tables of 8/32/4096 buckets, minimum page cache; universe = the keys plus, for each, the absent keys differing in exactly one of bits {0,1,5,6,7,11,12,13,18,127,254,255}; after every commit and after a final reopen (cold cache) every universe key is proven in a fresh session: the proof verifies against session.prev_root() (= reference root) and confirms exactly the model's view (value hash for present keys, non-existence for absent ones); plus sessions layered on overlay chains of depth 1–2 and 3 over the cluster, overlays deleting runs of 1..11 consecutive on-disk keys across several value-leaf pages, chains whose overlays touch disjoint merkle pages, a stored 20-key cluster page emptied by an older overlay and refilled with 1/2/3/19/20/21 keys by a younger one (sessions on both), and the tombstone family (tiny hash tables of 16/32 buckets × 16 bitbox seeds, 10 pages inserted, every single page and every pair of pages removed again, then a cold reopen).",
+        "histx: all histories of ≤D commits with ≤B key actions {insert, delete} over a 4-key family and over 19/20/21-key merkle clusters (paths crossing elided pages), hash tables of 8/32/4096 buckets, minimum page cache; universe = the keys plus, for each, the absent keys differing in exactly one of bits {0,1,5,6,7,11,12,13,18,127,254,255}; after every commit and after a final reopen (cold cache) every universe key is proven in a fresh session: the proof verifies against session.prev_root() (= reference root) and confirms exactly the model's view (value hash for present keys, non-existence for absent ones); plus sessions layered on overlay chains of depth 1–2 and 3 over the cluster, overlays deleting runs of 1..11 consecutive on-disk keys across several value-leaf pages, chains whose overlays touch disjoint merkle pages, a stored 20-key cluster page emptied by an older overlay and refilled with 1/2/3/19/20/21 keys by a younger one (sessions on both), every chain of two (thorough three) overlays over two stored cluster pages with nine macro batches each (see C11), and the tombstone family (tiny hash tables of 16/32 buckets × 16 bitbox seeds, 10 pages inserted, every single page and every pair of pages removed again, then a cold reopen).",
     );
     p.budget_s = if thorough { 1700 } else { 55 };
     p
